@@ -609,6 +609,66 @@ def rj1(ctx, R):
             "some object of a segment escapes the data type consistency check")
 
 
+@rule("IN1", "a segment that declares a new object list inherits nothing from the previous segment's list or index", floor=2)
+def in1(ctx, R):
+    """Every place reached from read_segment_objects that reads the previous segment's ordered_objects or object_index (the copy
+    that extends the list, the wholesale share of a segment without metadata, any short cut) is put under the conditions that lead
+    to it (through the call chain, parameters replaced by the caller's arguments).  With kTocMetaData and kTocNewObjList taken as set
+    and a previous segment present, one of those conditions must be false."""
+    from .sym import Sym, eval_cond, show, alpha, collect
+    from .sem import call_chains
+    from .region import region
+    prog = ctx.prog
+    fi = prog.func("tdms_segment.TdmsSegment.read_segment_objects")
+    prev = [p for p in fi.params if "previous_segment" == p or p.startswith("previous_segment") and "object" not in p]
+    if not prev:
+        raise AnchorMissing("tdms_segment.TdmsSegment.read_segment_objects: parameter holding the previous segment")
+    PREV = ("param", prev[0])
+
+    def flag_test(c, name):
+        return isinstance(c, tuple) and len(c) == 3 and c[0] == "binop" and c[1] == "&" and any(
+            isinstance(t, tuple) and len(t) == 3 and t[0] == "sub" and t[2] == ("const", name) for t in c[2])
+
+    def orc(c):
+        if flag_test(c, "kTocNewObjList") or flag_test(c, "kTocMetaData"):
+            return True
+        if c == PREV:
+            return True
+        if c in (("cmp", "is", PREV, ("const", None)), ("cmp", "==", PREV, ("const", None))):
+            return False
+        if isinstance(c, tuple) and len(c) == 4 and c[0] == "cmp" and c[1] in ("!=", "==") and c[3] == ("const", 0) and (
+                flag_test(c[2], "kTocNewObjList") or flag_test(c[2], "kTocMetaData")):
+            return c[1] == "!="
+        return None
+    n = 0
+    for g in region(ctx, fi, depth=3):
+        if g.module is not fi.module:
+            continue
+        chains = [((), {})] if g is fi else call_chains(prog, fi, g, inline=True)
+        if not chains:
+            continue
+        sy = Sym(prog, g, g.cls)
+        for outer, bound in chains:
+            for node in walk_body(g.node):
+                if not (isinstance(node, ast.Attribute) and node.attr in ("ordered_objects", "object_index") and isinstance(node.ctx, ast.Load)):
+                    continue
+                env, guards = sy.env_at(node, bound=bound)
+                if sy.expr(node.value, env) != PREV:
+                    continue
+                n += 1
+                gs = list(outer) + list(guards)
+                key = "%s::previous_segment.%s" % (g.qual, node.attr)
+                vals = [eval_cond(x, orc) for x in gs]
+                if any(v is False for v in vals):
+                    R.ok(key, g.where(node), "not reached when the segment has metadata and declares a new object list")
+                else:
+                    R.violation(key, g.where(node), "the previous segment's %s is taken over on a path that is open to a segment with metadata and kTocNewObjList "
+                                "set (conditions: %s): such a segment must start from an empty object list, otherwise objects of the previous segment "
+                                "(or their positions) leak into it" % (node.attr, "; ".join(show(alpha(x))[:60] for x in gs) or "none"))
+    if n < 2:
+        raise AnchorMissing("reads of the previous segment's ordered_objects / object_index reached from read_segment_objects (found %d)" % n)
+
+
 # ---------------------------------------------------------------------------
 # OW3 scaling purity (C13)
 
